@@ -36,11 +36,11 @@ def gen_data(rng, regdefs, nmax=12, allnone=0.08):
     out = []
     for _ in range(rng.randint(0, nmax)):
         if rng.random() < 0.25:
-            while True:
+            for _try in range(60):     # an identifier test like .* leaves no free-text line: then none is generated
                 t = "".join(rng.choice("abc xyz.#;-19") for _ in range(rng.randint(1, 14)))
                 if reglib.ref_dispatch(regdefs, t + "\n") < 0:
+                    out.append([-1, t + "\n"])
                     break
-            out.append([-1, t + "\n"])
         else:
             i = rng.randrange(len(regdefs))
             fs = regdefs[i]["fields"]
